@@ -57,7 +57,7 @@ THEOREMS = {
     "C17": ["Storage.run_function", "Storage.isolation", "Storage.fresh_defaults_distinct", "Storage.shared_default_breaks_isolation",
             "Storage.ingest_preserves", "Storage.event_reusable", "Storage.defaults_safe"],
     "C14": ["alpha_bounds_reach", "Records.phase_order", "alpha_bounds", "alpha_increase_only_if_scarce", "alpha_increase_amount", "alpha_no_increase_when_met",
-            "alpha_drift_to_base"],
+            "alpha_drift_to_base", "alpha_bound_needs_rate_le_one"],
 }
 
 # Lean modules holding them
